@@ -779,6 +779,11 @@ class C30(Spec):
             for x in range(1 << n):
                 for a in (0, 1):
                     out.append(('find', n, x, a))
+        # find in the empty list: every target (public 0 / 1, secret) and output mode
+        for a in (0, 1):
+            for secret in (0, 1):
+                for mode in self.MODES:
+                    out.append(('find0', 0, 0, (a, secret, mode)))
         # find with an explicit not-found value e (int or expression in len(x)), with and without f / cs_f
         for n in (1, 2, 3, 4) if q else (1, 2, 3, 4, 5, 6):
             xs = range(1 << n) if n <= 2 else sorted({0, (1 << n) - 1, 1, 1 << (n - 1), (1 << n) - 2})
@@ -823,6 +828,15 @@ class C30(Spec):
                 prog = G(cfg, 16, [('x', bits(x, n))], [['find', outs, ['x'], {'a': a, 'mode': mode}]], outs, snd)
             else:   # secret target bit
                 prog = G(cfg, 16, [('x', bits(x, n)), ('a', a)], [['find', outs, ['x', 'a'], {'mode': mode}]], outs, snd)
+        elif kind == 'find0':
+            a, secret, mode = y
+            nout = 2 if mode in ('raw', 'pair') else 1
+            outs = [f'r{j}' for j in range(nout)]
+            base = [['const', ['z'], [], {'value': 0}], ['mklist', ['x'], [], {}]]
+            if secret:
+                prog = G(cfg, 16, [('a', a)], base + [['find', outs, ['x', 'a'], {'mode': mode}]], outs, snd)
+            else:
+                prog = G(cfg, 16, [('a', a)], base + [['find', outs, ['x'], {'a': a, 'mode': mode}]], outs, snd)
         elif kind == 'find_e':
             a, e, fm = y
             if rng.random() < 0.5:
@@ -1129,6 +1143,12 @@ def _kf_c28(self, tier):
                   'stmts': [['elt', 'g2', [], {'pow': 10, 'secure': False}],
                             ['repeat', 'g4', ['g2'], {'x': 1, 'exp': 'fld', 'form': 'xor', 'xin': 3}]],
                   'outputs': ['g4'], 'tags': []}},
+        # fixed finding classgroup-divmod-quotient-one-too-small (depends on the protocol randomness: rand_seed)
+        {'family': 'grp', 'cfg': _cfgj(5, 2, k=40), 'rand_seed': 11017909, 'opts': {'step_cap': 3000000},
+         'prog': {'family': 'grp', 'group': {'kind': 'Cl', 'Delta': -23, 'order': 3},
+                  'stmts': [['elt', 'g1', [], {'pow': 5}], ['elt', 'g2', [], {'pow': 9, 'secure': False}],
+                            ['repeat', 'g3', ['g1'], {'x': 8, 'exp': 'int', 'form': 'repeat', 'xin': 0}]],
+                  'outputs': ['g1', 'g3'], 'tags': []}},
         {'family': 'grp', 'cfg': _cfgj(5, 0),
          'prog': {'family': 'grp', 'group': {'kind': 'Cl', 'Delta': -23, 'order': 3},
                   'stmts': [['elt', 'g2', [], {'pow': 1, 'secure': False}],
